@@ -26,3 +26,38 @@ package cmp
 //@   ensures approx(fraction, margin, fx, fy) == approx(fraction, margin, fy, fx)
 //@ lemma approxReflexive(fraction float64, margin float64, fx float64)
 //@   ensures approx(fraction, margin, fx, fx)
+//@
+//@ // ---- assumed facts about the protobuf reflection API (library contracts, not proved here) ----
+//@ axiom valueMessageNonNil: forall v protoreflect.Value :: !isnil(v.Message())
+//@ axiom messageDescriptorNonNil: forall m protoreflect.Message :: !isnil(m) ==> !isnil(m.Descriptor())
+//@ axiom durationGoType: forall m protoreflect.Message :: !isnil(m) && m.Descriptor().FullName() == "google.protobuf.Duration" ==> istype(m.Interface(), *durationpb.Duration) && cast(m.Interface(), *durationpb.Duration) != nil
+//@ axiom timestampGoType: forall m protoreflect.Message :: !isnil(m) && m.Descriptor().FullName() == "google.protobuf.Timestamp" ==> istype(m.Interface(), *timestamppb.Timestamp) && cast(m.Interface(), *timestamppb.Timestamp) != nil
+//@
+//@ // ---- duration tolerance ----
+//@ pure func isDurationMsg(m) = m.Descriptor().FullName() == "google.protobuf.Duration"
+//@
+//@ func cmpDuration(fd, x, y) (xd, yd, equal, ok, returnEarly)
+//@   requires fd != nil
+//@   ensures [not-message] fd.Kind() != protoreflect.MessageKind ==> returnEarly && !ok
+//@   ensures [other-kind] fd.Kind() == protoreflect.MessageKind && !isDurationMsg(x.Message()) && !isDurationMsg(y.Message()) ==> returnEarly && !ok
+//@   ensures [mixed] fd.Kind() == protoreflect.MessageKind && isDurationMsg(x.Message()) != isDurationMsg(y.Message()) ==> returnEarly && ok && !equal
+//@   requires isDurationMsg(x.Message()) ==> validDurMsg(durOf(x))
+//@   requires isDurationMsg(y.Message()) ==> validDurMsg(durOf(y))
+//@   ensures [own-kind] !returnEarly == bothDurations(fd, x, y)
+//@   ensures [values] !returnEarly ==> xd == nanosOf(durOf(x)) && yd == nanosOf(durOf(y))
+//@   modifies nothing
+//@
+//@ // the duration a (valid, normalised) durationpb.Duration denotes, saturated to the int64 range like AsDuration
+//@ pure func durOf(v) = cast(v.Message().Interface(), *durationpb.Duration)
+//@ pure func validDurMsg(p) = 0 - 315576000000 <= p.Seconds && p.Seconds <= 315576000000 && 0 - 999999999 <= p.Nanos && p.Nanos <= 999999999 && (p.Seconds > 0 ==> p.Nanos >= 0) && (p.Seconds < 0 ==> p.Nanos <= 0)
+//@ pure func nanosOf(p) = min(max(p.Seconds * 1000000000 + p.Nanos, 0 - 9223372036854775808), 9223372036854775807)
+//@ pure func bothDurations(fd, x, y) = fd.Kind() == protoreflect.MessageKind && isDurationMsg(x.Message()) && isDurationMsg(y.Message()) && x.Message().IsValid() && y.Message().IsValid()
+//@
+//@ func DurationValueWithin$1(fd, x, y) (equal, ok)
+//@   requires fd != nil && d >= 0
+//@   requires isDurationMsg(x.Message()) ==> validDurMsg(durOf(x))
+//@   requires isDurationMsg(y.Message()) ==> validDurMsg(durOf(y))
+//@   ensures [own-kind] (fd.Kind() != protoreflect.MessageKind || (!isDurationMsg(x.Message()) && !isDurationMsg(y.Message()))) ==> !ok
+//@   ensures [region] bothDurations(fd, x, y) ==> ok && equal == (abs(nanosOf(durOf(x)) - nanosOf(durOf(y))) <= d)
+//@   modifies nothing
+//@   replay DurationWithin(durOf(x).Seconds, durOf(x).Nanos, durOf(y).Seconds, durOf(y).Nanos, d)
